@@ -8,7 +8,10 @@ package c12
 
 import (
 	"encoding/json"
+	"fmt"
 	"os"
+	"path/filepath"
+	"strings"
 	"testing"
 	"time"
 
@@ -32,6 +35,8 @@ func mergeQ(r *ev.Run) {
 		ev.InfraError("C12S_OUT not set: run checks/c12/run.sh (part S runs before part N)")
 	}
 	nrun.MergeSummary(r, spath, "s")
+	keepArtefacts(path, "q")
+	keepArtefacts(spath, "s")
 	b, err := os.ReadFile(path)
 	if err != nil {
 		ev.InfraError("summary of part Q: %v", err)
@@ -55,6 +60,36 @@ func mergeQ(r *ev.Run) {
 	}
 	r.Assume("part S: struct types are stubs carrying only the fields the extracted functions use; the sender thread transcribes shareAck's drain/build/send/response steps (success path); the fetch loop's wake-ups are no-ops (the sender drains on its own schedule)")
 	r.Assume("parts Q/Q2: the harness builds shareConsumer/source/shareCursor/shareAckSlab values by hand (no client); the fetch loop is never started", "part Q2: the sender's response step transcribes shareAck's success path (renew statuses reset, pending counter decremented by the number of drained entries)")
+}
+
+// keepArtefacts writes the artefacts of a part's findings to
+// violations/C12/<tier>-<part><n>.json as well: ev keeps only the first 20
+// artefacts of a run, and on a tree with a defect part N alone reports more
+// violating executions than that. (Known findings included: the files are what
+// checks/c12/run.sh --replay takes.)
+func keepArtefacts(path, part string) {
+	b, err := os.ReadFile(path)
+	if err != nil {
+		return
+	}
+	var s struct {
+		Viol []struct {
+			Key, What string
+			Artefact  any
+		}
+	}
+	if json.Unmarshal(b, &s) != nil {
+		return
+	}
+	dir := filepath.Join(ev.Root(), "violations", "C12")
+	os.MkdirAll(dir, 0o755)
+	for i, v := range s.Viol {
+		out, _ := json.MarshalIndent(map[string]any{"property": "C12", "key": v.Key, "what": v.What, "artefact": v.Artefact}, "", " ")
+		f := filepath.Join(dir, fmt.Sprintf("%s-%s%d.json", ev.Tier(), part, i+1))
+		if os.WriteFile(f, out, 0o644) == nil {
+			fmt.Printf("  part %s finding %s: artefact %s\n", strings.ToUpper(part), v.Key, f)
+		}
+	}
 }
 
 func TestC12(t *testing.T) {
